@@ -910,8 +910,31 @@ def unit_spec(ctx):
             rep.violation("sub_run_spec read back %s, model %s" % (got, m_read),
                           {"input": "corr:C14/spec_order", "case": [data, starts], "impl": got, "model": mo},
                           no_failing_input=True)
+        m_chain = [int(x) for x in mo.split("|")[2].split()[1:]]
+        helper = getattr(st, "_sub_run_spec_by_start", None)
+        if helper is None:
+            # the helper is private: without it the order is judged end to end by the pipeline unit only
+            dist["Context._sub_run_spec_by_start not found"] = dist.get("Context._sub_run_spec_by_start not found", 0) + 1
+            chain = m_chain
+        else:
+            try:
+                chain = [ident(r) for r in helper(st.run_metadata("_a")["sub_run_spec"])]
+            except Exception as e:  # noqa
+                chain = "%s: %s" % (type(e).__name__, str(e)[:100])
+        if chain != m_chain:
+            # the property predicate: the sub-runs are chained in order of run start
+            ok_pred = isinstance(chain, list) and sorted(chain) == sorted(set(data)) and \
+                all(starts[a] <= starts[b] for a, b in zip(chain[:-1], chain[1:]))
+            if ok_pred:
+                rep.violation("chained sub-run order %s, model %s" % (chain, m_chain),
+                              {"input": "corr:C14/spec_order", "case": [data, starts], "impl": chain, "model": mo},
+                              no_failing_input=True)
+            else:
+                rep.violation("the sub-runs %s with run starts %s are chained in the order %s, not in order of run start"
+                              % (data, starts, chain), {"input": {"data": data, "starts": starts}, "impl": chain, "unit": "spec_order"})
         strict = all(starts[a] != starts[b] for a in set(data) for b in set(data) if a != b)
-        cls = "start-order kept" if got == by_start else ("start-order lost" if strict else "start-order lost (ties)")
+        cls = "read back in start order" if got == by_start else \
+            ("read back in another order, re-ordered by start" if strict else "read back in another order (ties)")
         dist[cls] = dist.get(cls, 0) + 1
         if len(set(data)) >= 2:
             nontriv.add(lib.canon([data, sorted(starts.items())]))
@@ -1208,7 +1231,8 @@ def unit_pipeline(ctx):
                   for c in cases]
     spec_out = lib.run_model("C14", spec_lines)
     spec_read = [[int(x) for x in o.split("|")[1].split()[1:]] for o in spec_out]
-    pout = lib.run_model_parallel("C14", [model_pipeline_line(c, sr) for c, sr in zip(cases, spec_read)])
+    spec_chain = [[int(x) for x in o.split("|")[2].split()[1:]] for o in spec_out]
+    pout = lib.run_model_parallel("C14", [model_pipeline_line(c, sc) for c, sc in zip(cases, spec_chain)])
     results = run_parallel(cases, budget_s=1200 if ctx.thorough else 60)
     if len(results) < len(cases):
         ctx.notes.append("pipeline: wall-clock budget reached after %d of %d generated cases" % (len(results), len(cases)))
@@ -1216,7 +1240,7 @@ def unit_pipeline(ctx):
     dist = {}
     nontriv = set()
     rep = Reporter(ctx, "pipeline")
-    known = {"F1": 0, "F2": 0}
+    known = {}
     for idx, (case, res, sr, po) in enumerate(zip(cases, results, spec_read, pout)):
         if isinstance(res, str) and "CaseTimeout" in res:
             res = {"timeout": True}
@@ -1282,19 +1306,11 @@ def unit_pipeline(ctx):
                     reasons.append(("exact", r, "stored"))
         known.setdefault("Z", 0)
         for kind, r, what in reasons:
-            # the known defects: the faithful model predicts exactly this behaviour (no diff above) and the
-            # case lies in the class that the proved (partial) theorems exclude
             if not diffs and zero and kind in ("rows", "exact") and "combining" not in what:
                 known["Z"] += 1     # a zero-duration chunk inside a sub-run: outside the property's quantifier
                 continue
-            if not diffs and kind == "rows" and not ordered:
-                known["F1"] += 1
-                continue
-            if not diffs and kind in ("exact", "rows") and "combining" not in what and gaps and multi_level and ordered:
-                known["F2"] += 1
-                continue
             rep.violation(r, {"input": case, "impl": res, "model": po, "unit": "pipeline"})
-        if not reasons and ordered:
+        if not reasons:
             nontriv.add(lib.canon(case))
         for what, a, b in diffs:
             rep.violation("model/implementation disagree on %s (impl %s, model %s)" % (what, str(a)[:400], str(b)[:400]),
@@ -1302,8 +1318,6 @@ def unit_pipeline(ctx):
                           no_failing_input=True)
     if rep.bad:
         dist["disagreements / predicate failures"] = rep.bad
-    dist["cases in known class F1 (predicate fails as the faithful model predicts)"] = known["F1"]
-    dist["cases in known class F2 (predicate fails as the faithful model predicts)"] = known["F2"]
     dist["predicate failures on sub-runs with a zero-duration chunk (outside the quantifier, model agrees)"] = known.get("Z", 0)
     ctx.count("pipeline", len(cases), len(nontriv), dist)
     ctx.sample({"unit": "pipeline", "case": cases[len(cases) // 2], "model": pout[len(cases) // 2][:600]})
@@ -1390,34 +1404,36 @@ F1_WITNESS = {"order": [2, 1], "layout": {"2": [(0, 10, [(1, 2, 0, 2)])], "1": [
 
 
 def unit_findings(ctx):
-    """the two known defects, each on its minimal witness (KNOWN-FINDING when listed)"""
+    """the minimal witnesses of the findings F1, F2 (repaired in /repo by 317aec4, bea6d1c): regression cases"""
     def quiet_run(case, tag):
         with contextlib.redirect_stdout(io.StringIO()), contextlib.redirect_stderr(io.StringIO()):
             return run_pipeline_impl(case, tag)
-    res = quiet_run(F2_WITNESS, "f2")
-    r = None
-    if res["out"].startswith("ok"):
-        r = check_exact(F2_WITNESS, parse_shows(res["out"][3:]), "yielded")
-        if not r and res.get("saved"):
-            for s in res["saved"].split(" ; "):
-                r = r or check_exact(F2_WITNESS, parse_shows(s), "stored")
-    if r:
-        ctx.violation("superrun_annotations_exact", r + " (split of a chunk whose sub-run spans do not touch its "
-                      "boundaries leaves the spans untouched: promised_continuity=False)",
-                      {"input": F2_WITNESS, "impl": res, "unit": "superrun_annotations_exact"})
-    res = quiet_run(F2B_WITNESS, "f2b")
-    r = check_rows(F2B_WITNESS, res["out"], "get")
-    if r:
-        ctx.violation("superrun_rows", r + " (stale sub-run spans left by promised_continuity=False splits cannot be "
-                      "merged two levels further up)",
-                      {"input": F2B_WITNESS, "impl": res, "unit": "superrun_rows"})
-    res = quiet_run(F1_WITNESS, "f1")
-    r = check_rows(F1_WITNESS, res["out"], "get") or check_rows(F1_WITNESS, res["combining"], "get (combining)")
-    if r:
-        ctx.violation("superrun_rows", r + " (DataDirectory.write_run_metadata dumps json with sort_keys=True: the "
-                      "sub_run_spec ordered by run start comes back ordered by run-id string)",
-                      {"input": F1_WITNESS, "impl": res, "unit": "superrun_rows"})
-    ctx.count("findings", 3, 3, {"witness replays": 3})
+    n_ok = 0
+    for tag, case, why in (
+            ("f2", F2_WITNESS, "Chunk.split must split the recorded subruns also when promised_continuity is False"),
+            ("f2b", F2B_WITNESS, "Chunk.split must split the recorded subruns also when promised_continuity is False"),
+            ("f1", F1_WITNESS, "the sub-runs must be chained in order of run start whatever order the storage "
+                               "frontend returns the spec in")):
+        res = quiet_run(case, tag)
+        if res.get("timeout"):
+            continue
+        reasons = []
+        for what, o in (("get", res["out"]), ("re-read", res.get("reload")), ("get (combining)", res["combining"])):
+            if o is not None:
+                reasons.append(check_rows(case, o, what))
+                if o.startswith("ok"):
+                    reasons.append(check_exact(case, parse_shows(o[3:]), what))
+        for sv in (res.get("saved") or "").split(" ; "):
+            if sv:
+                reasons.append(check_exact(case, parse_shows(sv), "stored"))
+        reasons = [r for r in reasons if r]
+        if reasons:
+            ctx.violation("superrun_rows" if "failed" in reasons[0] or "returned rows" in reasons[0]
+                          else "superrun_annotations_exact", reasons[0] + " (" + why + ")",
+                          {"input": case, "impl": res, "unit": "pipeline"})
+        else:
+            n_ok += 1
+    ctx.count("findings", 3, n_ok, {"regression witnesses that hold": n_ok})
 
 
 # ------------------------------------------------------------------------------------------
